@@ -28,6 +28,7 @@ import (
 	"verifharness/drv/sy"
 	"verifharness/drv/tf"
 	"verifharness/drv/ts"
+	"verifharness/drv/wk"
 )
 
 func main() {
@@ -60,6 +61,8 @@ func main() {
 		os.Exit(ec.Main(os.Args[2:]))
 	case "ip":
 		os.Exit(ip.Main(os.Args[2:]))
+	case "wk":
+		os.Exit(wk.Main(os.Args[2:]))
 	case "rt":
 		os.Exit(rt.Main(os.Args[2:]))
 	case "ag-runmain":
